@@ -124,10 +124,12 @@ def run(case, choices):
                     break
             res.violate("C19:%s:multi-line" % which, "an access record spans several lines: %s; %s" % (bsafe(r.encode("latin-1", "replace"), 200), ctx()))
             break
-    if len(recs) > max(nreq, state.calls) and not state.failed:
+    # every application call yields at most one record, and at most one server-rejected request ends the connection
+    # (the number of generated messages is no bound: a mutated head can turn a body into further requests)
+    if len(recs) > state.calls + 1 and not state.failed:
         # (an application call that raises may be logged by the request handler and again by the error path:
         #  failing calls are outside the property's statement)
-        res.violate("C19:too-many-records", "%d records for %d requests (%d application calls); %s" % (len(recs), nreq, state.calls, ctx()))
+        res.violate("C19:too-many-records", "%d records for %d application calls (+ at most one rejected request); %s" % (len(recs), state.calls, ctx()))
     if case["mode"] == "normal" and esc is None and not state.failed:
         reqs = case["reqs"]
         resps, probs, rest = resp_ref.parse(wire, [{"method": r["method"]} for r in reqs] + [{"method": "GET"}])
